@@ -259,6 +259,9 @@ Ltac split_tags H :=
          | _ ++ _ = [] => let H1 := fresh "T" in apply app_eq_nil in H as [H1 H]; try apply tag_if_nil in H1
          end; try apply tag_if_nil in H.
 
+Lemma all_ok_cons c l : all_ok (c :: l) = ck_ok c && all_ok l.
+Proof. reflexivity. Qed.
+
 Lemma feature_ok sc fl m ft :
   msg_accepted m = true -> feature_tags sc fl m ft = [] -> all_ok (feature_checks sc fl m ft) = true.
 Proof.
@@ -278,7 +281,16 @@ Proof.
     apply bytes_field_ok; [now apply (existsb_false _ _ T)|now apply (existsb_false _ _ Ht)].
   - split_tags Ht. rewrite all_ok_flat_map. apply forallb_in. intros f Hf.
     apply flatten_field_ok; [auto|now apply (existsb_false _ _ Ht)].
-  - split_tags Ht. destruct (disc_oneofs m); [reflexivity|discriminate].
+  - split_tags Ht. rewrite all_ok_flat_map. apply forallb_in. intros o Ho.
+    pose proof (existsb_false _ _ T o Ho) as Hdup. cbn beta in Hdup. apply negb_false_iff in Hdup.
+    pose proof (existsb_false _ _ Ht o Ho) as Hfor. cbn beta in Hfor.
+    unfold oneof_checks. rewrite !all_ok_cons. cbn [ck_ok mk mkvet]. rewrite Hdup.
+    change (printf_ok (s "invalid discriminator %q: %w") 2) with true. cbn [andb].
+    rewrite all_ok_flat_map. apply forallb_in. intros f Hf.
+    pose proof (existsb_false _ _ Hfor f Hf) as Hff. cbn beta in Hff.
+    destruct (f_kind f) eqn:Ek; try reflexivity.
+    unfold foreign_msg in Hff. apply negb_false_iff in Hff.
+    unfold all_ok. cbn [forallb ck_ok mk mkvet]. rewrite Hff. reflexivity.
   - unfold unwrap_checks. destruct (is_root_unwrap m) eqn:Er.
     + destruct (unwrap_field m) as [f|] eqn:Ef; [|reflexivity].
       split_tags Ht. unfold unwrap_field in Ef. apply find_in in Ef as [Hin Hun].
@@ -304,9 +316,6 @@ Proof.
       * now apply (existsb_false _ _ T2).
       * now apply (existsb_false _ _ Ht).
 Qed.
-
-Lemma all_ok_cons c l : all_ok (c :: l) = ck_ok c && all_ok l.
-Proof. reflexivity. Qed.
 
 Lemma msg_ok p sc fl m :
   msg_accepted m = true -> msg_tags p sc fl m = [] -> all_ok (msg_checks p sc fl m) = true.
@@ -405,21 +414,32 @@ Proof.
   split; [exact Hb|]. unfold go_vets. rewrite Hb. cbn [andb]. unfold vet_checks. now apply all_ok_filter.
 Qed.
 
-(* the only way a route handler of the TS server redeclares a const: a verb without body whose
-   route has path variables AND whose request has query parameters *)
-Theorem ts_route_redeclares_iff sc sv md :
-  nodup_strb (ts_route_consts sc sv md) = false <->
-  (path_params md <> [] /\ has_body md = false /\
-   exists m, input_msg sc md = Some m /\ query_fields_of m <> []).
+(* after cbe68e9 no route handler of the TS server declares a const twice, whatever the verb, the
+   path variables, the query parameters and the headers ... *)
+Theorem ts_route_never_redeclares sc sv md : nodup_strb (ts_route_consts sc sv md) = true.
 Proof.
-  unfold ts_route_consts. split.
-  - intros H. destruct (sv_headers sv ++ md_headers md); destruct (path_params md) eqn:Ep;
-      destruct (has_body md) eqn:Eb; destruct (input_msg sc md) as [m|] eqn:Em;
-      try (destruct (query_fields_of m) eqn:Eq); cbn in H; try discriminate;
-      (split; [discriminate|split; [reflexivity|exists m; split; [reflexivity|rewrite Eq; discriminate]]]).
-  - intros (Hp & Hb & m & Hm & Hq). rewrite Hb, Hm.
-    destruct (sv_headers sv ++ md_headers md); destruct (path_params md); try congruence;
-      destruct (query_fields_of m); try congruence; reflexivity.
+  unfold ts_route_consts.
+  destruct (sv_headers sv ++ md_headers md); destruct (path_params md); destruct (has_body md);
+    destruct (input_msg sc md) as [m|]; try destruct (query_fields_of m); reflexivity.
+Qed.
+
+(* ... and the query parser, which reads url.searchParams, always has `url` in scope: declared by the
+   path extraction when the route has path variables, by itself otherwise *)
+Theorem ts_query_parser_has_url sc sv md :
+  mem_str (s "params") (ts_route_consts sc sv md) = true -> mem_str (s "url") (ts_route_consts sc sv md) = true.
+Proof.
+  unfold ts_route_consts.
+  destruct (sv_headers sv ++ md_headers md); destruct (path_params md); destruct (has_body md);
+    destruct (input_msg sc md) as [m|]; try destruct (query_fields_of m); cbn; intros H; try discriminate; reflexivity.
+Qed.
+
+Theorem ts_loads_always sc : ts_loads sc = true.
+Proof.
+  unfold ts_loads. apply forallb_in. intros fl _. apply andb_true_iff. split.
+  - unfold ts_server_loads. apply forallb_in. intros sv _. apply forallb_in. intros md _. apply ts_route_never_redeclares.
+  - unfold ts_client_loads. apply forallb_in. intros md _. unfold ts_client_consts.
+    destruct (has_body md); [reflexivity|]. destruct (input_msg sc md) as [m|]; [|reflexivity].
+    destruct (query_fields_of m); reflexivity.
 Qed.
 
 Theorem C13_builds_lemma : forall sc, accepted sc = true -> defects_C13 sc = [] ->
@@ -430,7 +450,7 @@ Proof.
   split.
   - intros ps. apply go_builds_and_vets; [assumption|]. unfold defects_go.
     destruct ps; [rewrite H1|rewrite H2|rewrite H3]; reflexivity.
-  - unfold ts_tags in H4. apply tag_if_nil in H4. now apply negb_false_iff in H4.
+  - apply ts_loads_always.
 Qed.
 
 (* ================================================================================================ *)
@@ -495,12 +515,15 @@ Definition good_schema : schema :=
      msg "BarList" [fld "bars" (M "Inner") Repeated None [AUnwrap]; fld "n" KInt32 Singular None []] [];
      msg "Series" [fld "by_sym" (M "BarList") (MapOf KString) None []; fld "label" KString Singular None [];
                    fld "one" (M "Inner") Singular None []; fld "raw" KBytes Optional None []] [];
-     msg "GetReq" [fld "user_id" KString Singular None []] [];
+     msg "Ev" [fld "id" KString Singular None []; fld "text" (M "Inner") Singular (Some "payload") []; fld "note" KString Singular (Some "payload") [AVal "n"]]
+              [disc_oneof "payload" "type"];
+     msg "GetReq" [fld "user_id" KString Singular None []; fld "page" KInt32 Singular None [AQuery]] [];
      msg "DelReq" [fld "q" KString Singular None [AQuery]; fld "n" KSint64 Singular None [AQuery]; fld "b" KBool Singular None [AQuery]] []]
     []
     [svc "Users" ["X-API-Key"] [rpc "Get" "GetReq" "A" 1 "/u/{user_id}" ["X-Request-ID"];
                                 rpc "Drop" "DelReq" "Series" 4 "/u" [];
-                                rpc "Put" "Flat" "Tim" 3 "/f" []]]].
+                                rpc "Put" "Flat" "Tim" 3 "/f" ["X-API-Key"; "X-Request-ID"];
+                                rpc "Post" "Ev" "Ev" 2 "/e" []]]].
 
 Lemma good_schema_builds :
   accepted good_schema = true /\ defects_C13 good_schema = [] /\
@@ -530,13 +553,17 @@ Lemma w_flatten_plus_empty : refuted (one [msg "Addr" [fld "street" KString Sing
                                           msg "A" [fld "home" (M "Addr") Singular None [AFlat; AEmpty]] []])
   ["two-marshaljson-features"] OnlyClient ["redeclared"].
 Proof. refute. Qed.
-Lemma w_errorf : refuted (one [msg "T" [fld "body" KString Singular None []] [];
-                               msg "A" [fld "id" KString Singular None []; fld "text" (M "T") Singular (Some "p") []] [disc_oneof "p" "kind"]])
-  ["oneof-errorf-escaped-verb"] OnlyHttp ["vet-printf"].
-Proof. refute. Qed.
+(* repaired by ffb4b75 (%w): a message with a discriminated oneof builds AND vets, for every plugin subset *)
+Definition disc_schema : schema :=
+  one [msg "T" [fld "body" KString Singular None []] [];
+       msg "A" [fld "id" KString Singular None []; fld "text" (M "T") Singular (Some "p") []; fld "note" KString Singular (Some "p") [AVal "n"]]
+               [disc_oneof "p" "kind"]].
+Lemma discriminated_oneof_vets :
+  accepted disc_schema = true /\ defects_C13 disc_schema = [] /\ go_vets disc_schema OnlyHttp = true /\ go_vets disc_schema OnlyClient = true /\ go_vets disc_schema Both = true.
+Proof. vm_compute. repeat split; reflexivity. Qed.
 Lemma w_dup_discriminator : refuted (one [msg "T" [fld "body" KString Singular None []] [];
                                msg "A" [fld "text" (M "T") Singular (Some "p") [AVal "image"]; fld "image" (M "T") Singular (Some "p") []] [disc_oneof "p" "kind"]])
-  ["oneof-errorf-escaped-verb"; "oneof-duplicate-discriminator-value"] OnlyHttp ["duplicate"].
+  ["oneof-duplicate-discriminator-value"] OnlyHttp ["duplicate"].
 Proof. refute. Qed.
 Lemma w_foreign_flatten : refuted (one [msg "A" [fld "id" KString Singular None []; fld "at" ts_kind Singular None [AFlat]] []])
   ["unqualified-foreign-type"] OnlyHttp ["undefined"].
@@ -590,7 +617,18 @@ Proof. refute. Qed.
 Definition hdr_schema (sh m1 m2 : list string) : schema :=
   [file_of "a.proto" [msg "P" [fld "m" KString Singular None []] []] []
      [svc "Echo" sh [rpc "One" "P" "P" 2 "/one" m1; rpc "Two" "P" "P" 3 "/two" m2]]].
-Lemma w_header_twice : refuted (hdr_schema [] ["X-Tenant"] ["X-Tenant"]) ["client-duplicate-header-option"] OnlyClient ["redeclared"].
+(* repaired by e425100: a header declared by the service and by methods, by two methods, or two
+   headers with one helper name (X-Trace / Trace) get ONE helper; the package builds *)
+Lemma header_declared_twice_builds :
+  let sc := hdr_schema ["X-Trace"; "X-Tenant"] ["X-Tenant"; "Trace"] ["X-Tenant"; "X-Req"] in
+  accepted sc = true /\ defects_C13 sc = [] /\ go_vets sc OnlyClient = true /\ go_vets sc Both = true /\
+  client_decls (hd (file_of "" [] [] []) sc) =
+    map s ["<client_constants>"; "EchoClient"; "echoClient"; "EchoClientOption"; "WithEchoHTTPClient"; "WithEchoContentType";
+           "WithEchoDefaultHeader"; "EchoCallOption"; "echoCallOptions"; "WithEchoHeader"; "WithEchoCallContentType"; "NewEchoClient";
+           "WithEchoTrace"; "WithEchoTenant"; "WithEchoCallTrace"; "WithEchoCallTenant"; "WithEchoCallReq"].
+Proof. vm_compute. repeat split; reflexivity. Qed.
+(* still possible: a service header whose helper name starts with "Call" against a method header *)
+Lemma w_header_call_prefix : refuted (hdr_schema ["X-CallTrace"] ["X-Trace"] []) ["package-declaration-clash"] OnlyClient ["redeclared"].
 Proof. refute. Qed.
 Lemma w_header_builtin : refuted (hdr_schema ["Content-Type"] [] []) ["package-declaration-clash"] OnlyClient ["redeclared"].
 Proof. refute. Qed.
@@ -608,7 +646,10 @@ Proof. refute. Qed.
 Lemma w_no_methods : refuted [file_of "a.proto" [msg "P" [fld "m" KString Singular None []] []] [] [svc "Idle" [] []]]
   ["service-without-methods"] OnlyHttp ["unused"].
 Proof. refute. Qed.
-Lemma w_ts_url :
+(* repaired by cbe68e9: GET with a path variable and a query parameter; `url` is declared once *)
+Lemma ts_get_with_path_and_query_loads :
   let sc := get_schema (msg "Q" [fld "id" KString Singular None []; fld "v" KString Singular None [AQuery]] []) "/x/{id}" in
-  accepted sc = true /\ defects_C13 sc = [s "ts-server-url-redeclared"] /\ ts_loads sc = false /\ go_vets sc Both = true.
+  accepted sc = true /\ defects_C13 sc = [] /\ ts_loads sc = true /\ go_vets sc Both = true /\
+  ts_route_consts sc (svc "S" [] []) (rpc "Get" "Q" "R" 1 "/x/{id}" []) =
+    map s ["pathParams"; "url"; "pathSegments"; "params"; "body"; "ctx"; "result"].
 Proof. vm_compute. repeat split; reflexivity. Qed.
